@@ -2,6 +2,7 @@ import RosuModel.Model.GradualWire
 import RosuModel.Model.BuilderWire
 import RosuModel.Model.Convert
 import RosuModel.Model.DecodeWire
+import RosuModel.Model.TaikoTicksWire
 import RosuModel.Model.DetWire
 import RosuModel.Model.AttrsWire
 import RosuModel.Model.ModsWire
@@ -28,6 +29,7 @@ def handle (line : String) : String :=
   | ["C2P", total] => Decode.handleC2P total
   | ["C2PSET", total, xs] => Decode.handleC2PSet total xs
   | ["TCOL", keys, rcs, rod, count, len] => Decode.handleTargetColumns keys rcs rod count len
+  | ["TTICKS", v, sm, tr, dbl, dsv, tps, dps, sl] => TaikoTicks.handleTTicks v sm tr dbl dsv tps dps sl
   | ["BPM", last, tps] => DetWire.handleBpm last tps
   | ["OSU", seed, ops] => DetWire.handleOsu seed ops
   | ["CS", seed, ops] => DetWire.handleCs seed ops
